@@ -183,3 +183,64 @@ func StringPairs(t *Term, alphabet []string, f func(v *Term)) {
 		}
 	}
 }
+
+// QuirkTerms enumerates the quirk pass: every quirk op over every core
+// leaf, bare and under every wrapper entry of the full alphabet.
+func QuirkTerms() []*Term {
+	var ts []*Term
+	for _, q := range Quirks {
+		for _, l := range Entries(CoreOps(Leaves), 1) {
+			base := instantiate(Entry{Op: q}, instantiate(l, nil))
+			ts = append(ts, base.Clone().FillDefault())
+			for _, w := range Entries(Wrappers, 1) {
+				ts = append(ts, instantiate(w, base.Clone()).FillDefault())
+			}
+		}
+	}
+	return ts
+}
+
+// FindQuirk returns the first quirk op occurring on the spine or in a
+// side tree of t.
+func FindQuirk(t *Term) *Op {
+	if t == nil {
+		return nil
+	}
+	if t.Op.QuirkOf != "" {
+		return t.Op
+	}
+	if q := FindQuirk(t.Kid); q != nil {
+		return q
+	}
+	for _, s := range t.Side {
+		if q := FindQuirk(s); q != nil {
+			return q
+		}
+	}
+	return nil
+}
+
+// WithoutQuirks returns a copy of t where every quirk op is replaced by
+// its sibling (slots matched by name).
+func WithoutQuirks(t *Term) *Term {
+	if t == nil {
+		return nil
+	}
+	c := &Term{Op: t.Op, S: append([]string{}, t.S...), Kid: WithoutQuirks(t.Kid)}
+	for _, s := range t.Side {
+		c.Side = append(c.Side, WithoutQuirks(s))
+	}
+	if t.Op.QuirkOf != "" {
+		sib := OpByName[t.Op.QuirkOf]
+		c.Op = sib
+		c.S = make([]string, len(sib.Slots))
+		for i, sl := range sib.Slots {
+			for j, ql := range t.Op.Slots {
+				if ql.Name == sl.Name {
+					c.S[i] = t.S[j]
+				}
+			}
+		}
+	}
+	return c
+}
